@@ -494,9 +494,9 @@ def forward5 (f : List α → α) (fn : Fn α) (p : PList α) (value h f3 : α) 
     | (fn, p, none) => (fn, p, none)
     | (fn, p, some f5) => (fn, p, some (d1Side f4 f3 h, d2Side f5 f4 f3 h))
 
-/-- the nested `try`s of Five:46-90: a ConstraintException in the central branch leads to the
+/-- the nested `try`s of Five:46-101: a ConstraintException in the central branch leads to the
 backward branch, one in the backward branch (which is inside the outer `try`) or at the first
-probe to the forward branch, one in the forward branch escapes. -/
+probe to the forward branch, one in the forward branch to the give-up handler (`none`). -/
 def probes5 (f : List α → α) (fn : Fn α) (p : PList α) (value h f3 : α) : Br α :=
   let two : α := ofInt 2
   match probe5 f fn p (value - two * h) with
@@ -509,7 +509,7 @@ def probes5 (f : List α → α) (fn : Fn α) (p : PList α) (value h f3 : α) :
       | (fn, p, some d) => (fn, p, some d)
       | (fn, p, none) => forward5 f fn p value h f3
 
-/-- one iteration of the five-point loop (Five:24-91) -/
+/-- one iteration of the five-point loop (Five:24-102) -/
 def step5 (f : List α → α) (params : PList α) (lp : Loop α) (i : Nat) (var : Name) : Loop α × Option Exc :=
   if !has params var then (lp, none) else
   let names := match lp.lastVar with
@@ -528,7 +528,15 @@ def step5 (f : List α → α) (params : PList α) (lp : Loop α) (i : Nat) (var
         ({ w := { w with fn := fn, der1 := setAt w.der1 i (some d1), der2 := setAt w.der2 i (some d2) },
            p := p, lastVar := some var }, none)
       | (fn, p, none) =>
-        ({ w := { w with fn := fn }, p := p, lastVar := some var }, some .constraint)
+        -- Five:93-100 (fix): no room on either side.  The previous parameter, which may still be
+        -- displaced in `function_`, is reset (an exception thrown there, inside the handler,
+        -- escapes), then the NaN marker is stored as in the two- and three-point schemes.
+        let r := if decide (p.length > 1) then fn.setParameters f (subIdx p 1) else (fn, none)
+        match r.2 with
+        | some e => ({ w := { w with fn := r.1 }, p := p, lastVar := some var }, some e)
+        | none =>
+          ({ w := { w with fn := r.1, der1 := setAt w.der1 i none, der2 := setAt w.der2 i none },
+             p := p, lastVar := some var }, none)
 
 /-- the `for` loop over `variables_`, leaving at the first exception -/
 def loopGo (step : Loop α → Nat → Name → Loop α × Option Exc) : List Name → Nat → Loop α → Loop α × Option Exc
@@ -563,8 +571,18 @@ def setAt2 {β : Type} (m : List (List β)) (i j : Nat) (v : β) : List (List β
   | some row => m.set i (row.set j v)
   | none => m
 
-/-- one pair of the cross-derivative block (Three:157-206).  A ConstraintException anywhere in the
-four probes is rethrown as a plain Exception. -/
+/-- the `catch` of the cross-derivative block (Three:204-213, with the fix): the analytical
+derivatives of the wrapped function are switched back on, the wrapped function is sent back to
+`parameters`, then the ConstraintException is rethrown as a plain Exception; an exception thrown by
+`function_->setParameters(parameters)`, inside the handler, escapes instead. -/
+def crossFail (f : List α → α) (params : PList α) (cl : CLoop α) (fn : Fn α) : CLoop α × Option Exc :=
+  let r := ((fn.enable1 cl.w.c1).enable2 cl.w.c2).setParameters f params
+  ({ cl with w := { cl.w with fn := r.1 } }, some (match r.2 with
+    | some e => e
+    | none => .bpp))
+
+/-- one pair of the cross-derivative block (Three:159-214).  A ConstraintException anywhere in the
+four probes ends in `crossFail`. -/
 def crossPair (f : List α → α) (params : PList α) (cl : CLoop α) (i j : Nat) (var1 var2 : Name) : CLoop α × Option Exc :=
   let vars := [var1, var2]
     ++ (if cl.l1 != var1 && cl.l1 != var2 then [cl.l1] else [])
@@ -579,7 +597,7 @@ def crossPair (f : List α → α) (params : PList α) (cl : CLoop α) (i j : Na
       let value2 := p1.value
       let h1 := (one + abs value1) * w.h
       let h2 := (one + abs value2) * w.h
-      let fail (fn : Fn α) : CLoop α × Option Exc := ({ cl with w := { w with fn := fn } }, some .bpp)
+      let fail (fn : Fn α) : CLoop α × Option Exc := crossFail f params cl fn
       match p0.setValue (value1 - h1) with
       | .error _ => fail w.fn
       | .ok p0a =>
@@ -632,7 +650,7 @@ def crossGo (f : List α → α) (params : PList α) (all : List Name) : List Na
 def nanAll (w : W α) : W α :=
   { w with der1 := w.der1.map (fun _ => none), der2 := w.der2.map (fun _ => none) }
 
-/-- end of the computing branch (Two:96-100, Three:211-217, Five:93-98): switch the analytical
+/-- end of the computing branch (Two:96-100, Three:221-227, Five:103-109): switch the analytical
 derivatives of the wrapped function back on and "reset the last parameter"; `all` (three-point
 scheme with cross derivatives) resets the whole list instead. -/
 def finish (f : List α → α) (params : PList α) (lastVar : Option Name) (all : Bool) (w : W α) : W α × Option Exc :=
@@ -670,7 +688,7 @@ def update2 (f : List α → α) (w : W α) (params : PList α) : W α × Option
     | (fn, some e) => ({ w with fn := fn }, some e)
     | (fn, none) => ({ w with fn := fn, f1 := fn.fval }, none)
 
-/-- `ThreePointsNumericalDerivative::updateDerivatives` (Three:10-229) -/
+/-- `ThreePointsNumericalDerivative::updateDerivatives` (Three:10-240) -/
 def update3 (f : List α → α) (w : W α) (params : PList α) : W α × Option Exc :=
   if w.c1 && decide (w.vars.length > 0) then
     let fn := (w.fn.enable1 false).enable2 false
@@ -699,7 +717,7 @@ def update3 (f : List α → α) (w : W α) (params : PList α) : W α × Option
     | (fn, some e) => ({ w with fn := fn }, some e)
     | (fn, none) => ({ w with fn := fn, f2 := fn.fval }, none)
 
-/-- `FivePointsNumericalDerivative::updateDerivatives` (Five:10-111) -/
+/-- `FivePointsNumericalDerivative::updateDerivatives` (Five:10-122) -/
 def update5 (f : List α → α) (w : W α) (params : PList α) : W α × Option Exc :=
   if w.c1 && decide (w.vars.length > 0) then
     let fn := (w.fn.enable1 false).enable2 false
